@@ -8,15 +8,6 @@
 // LBOUND/UBOUND report the declared bounds.
 //# assume "bounded stand-in: three concrete shapes of rank 1..3 (<= 12 elements); the unbounded statement is the Verus unit varray"
 
-/// three concrete shapes (rank 1, 2, 3); index tuples stay fully symbolic
-fn any_dims() -> (usize, [(i32, i32); 3]) {
-    match vs::choice(3) {
-        0 => (1, [(-1, 1), (0, 0), (0, 0)]),
-        1 => (2, [(0, 1), (-1, 1), (0, 0)]),
-        _ => (3, [(1, 2), (-1, 0), (0, 2)]),
-    }
-}
-
 fn mk(rank: usize, d: &[(i32, i32); 3]) -> VArray {
     let mut dims: Vec<(i32, i32)> = Vec::new();
     let mut k = 0;
@@ -66,9 +57,7 @@ fn volume(rank: usize, d: &[(i32, i32); 3]) -> usize {
     v
 }
 
-//# harness new_and_bounds timeout=400 tier=quick label=bounded(3-shapes) props=C04 fn=rusty_variant/src/array_value.rs::VArray::new,rusty_variant/src/array_value.rs::VArray::get_dimension_bounds
-harness!(new_and_bounds, 14, {
-    let (rank, d) = any_dims();
+fn check_new(rank: usize, d: [(i32, i32); 3]) {
     let a = mk(rank, &d);
     assert!(a.len() == volume(rank, &d), "one element per index tuple");
     let k = vs::choice(4) as usize;
@@ -76,8 +65,18 @@ harness!(new_and_bounds, 14, {
         Some(&(lo, hi)) => assert!(k < rank && lo == d[k].0 && hi == d[k].1, "LBOUND/UBOUND report the declared bounds"),
         None => assert!(k >= rank),
     }
-    reach!(rank == 3 && a.len() == 12);
+    reach!(k + 1 == rank);
     std::mem::forget(a);
+}
+
+//# harness new_and_bounds_rank1 tier=quick label=bounded(shape=A(-1..1)) props=C04 fn=rusty_variant/src/array_value.rs::VArray::new,rusty_variant/src/array_value.rs::VArray::get_dimension_bounds timeout=400
+harness!(new_and_bounds_rank1, 14, {
+    check_new(1, [(-1, 1), (0, 0), (0, 0)]);
+});
+
+//# harness new_and_bounds_rank3 tier=quick label=bounded(shape=A(1..2,-1..0,0..2)) props=C04 fn=rusty_variant/src/array_value.rs::VArray::new,rusty_variant/src/array_value.rs::VArray::get_dimension_bounds timeout=400
+harness!(new_and_bounds_rank3, 14, {
+    check_new(3, [(1, 2), (-1, 0), (0, 2)]);
 });
 
 fn check_abs_index(rank: usize, d: [(i32, i32); 3]) {
